@@ -1,6 +1,10 @@
 import JSight.Example
 import JSight.ExampleSelf
 import JSight.ExampleRefs
+import JSight.ExampleTextProofs
+import JSight.ExampleKProofs
+import JSight.ExampleKWitness
+import JSight.ExampleAllOf
 /-!
 # C15 — Example() emits well-formed JSON
 
@@ -13,8 +17,16 @@ reference-free schemas (`C15_self_valid`: what is emitted is the whole EXAMPLE d
 accepts it, by C04/C01) and, with user-type references over arbitrary (also recursive) type tables, for every
 run of the builder in which no recursion cut-off happens (`C15_self_valid_refs`, through C03's
 `alts_iff_reach`). The cut-off cases (K-C15-reqcut, K-C15-arraycut), `or` inside containers (K-C15-or,
-K-C15-orcontainer) and key shortcuts (K-C15-keyalias) are outside the theorem and checked against the code
+K-C15-orcontainer) and key shortcuts (K-C15-keyalias) are outside THESE theorems and checked against the code
 outside the known-finding classes (harness `c15-example`).
+
+Added at the end of the file: the text-level theorem for the second sentence of the property
+(`C15_plain_text_roundtrip`, `C15_plain_result_is_json`, glue `C15_text_builder_is_model`; tie `c15-text`), the
+extended builder model `EXK.build` (key shortcuts, typed containers; `C15_build_extends`), self-validation with key
+shortcuts and with cut-offs at optional properties / array suffixes (`C15_self_valid_ext_partial`,
+`C15_self_valid_optional_cut`, `C15_self_valid_allOf`), and the negation of the full statement on the recorded
+witnesses of K-C15-reqcut, K-C15-arraycut and K-C15-keyclash (`C15_self_valid_full_false*`); ties `c15-exk`
+(builder text; inside the proved class the real `Validate` must accept the real `Example()`).
 -/
 namespace Props.C15
 open JsonScan
@@ -56,5 +68,137 @@ example : VR.exDoc (L := Nat) (D := Nat) [("a", .lit 1)] id 5 (fun _ => 0) (.obj
 /-- non-vacuity: a nested schema satisfying the hypothesis, and what is emitted for it -/
 example : VP.checked (fun (l : Nat) (d : Nat) => l == d) id
     (.obj [("a", true, .lit 1), ("b", false, .arr [.lit 2, .obj [("c", true, .lit 3)]])]) = true := by decide +kernel
+
+/-! ## Second sentence of the property, end to end on TEXT
+
+"For a schema whose example is plain JSON the result is that example with annotations and insignificant whitespace
+removed." `Loader.exampleText` is the composition schema scanner model (`SchemaScan`, tied by `schema-diff`) → loader
+model (`Loader.loadText`, tied by `loader-diff`) → `exampleBuilder.Build` on the loader's node table
+(`Loader.exBuild`; the whole composition is tied to the real `Example()` byte for byte by `c15-text`).
+`Example()` RE-EMITS the source tokens (literal: `BasisLexEventOfSchemaForNode().Value()`, key: `k.Lex.Value()`),
+it never re-encodes them; the theorem says so: `BT.compact` keeps every scalar and key token byte for byte.
+Layout = white space only (blank, tab, LF / CR in any mix, wherever the grammar allows it and around the value): the
+events-of-a-tree theorems (`SchemaEvents*`, `LoaderTree*`) do not cover user comments `# …` and annotations; those
+layouts are exercised by `c15-text` (streams B, D) on the same model function. Keys of one object pairwise
+distinct after decoding (otherwise error 402 in model and code: `C16_text_duplicate_key`, `c15-text` stream C). -/
+
+open Loader in
+theorem C15_plain_text_roundtrip (t : BT) (hv : t.cls.Valid) (ws0 ws1 : List UInt8)
+    (h0 : SchemaScan.IsWs (ws0.map SchemaScan.classify)) (h1 : SchemaScan.IsWs (ws1.map SchemaScan.classify))
+    (hd : t.KeysDistinct) :
+    exampleText (ws0 ++ (t.render ++ ws1)) = .ok t.compact :=
+  Loader.plain_text_roundtrip t hv ws0 ws1 h0 h1 hd
+
+/-- with C05 / C06: the JSON scanner model reads the result as exactly the events of the value without layout —
+in particular it is accepted (`t.cls.Json`: tokens by the JSON grammar, which implies `t.cls.Valid`) -/
+theorem C15_plain_result_is_json (allow : Bool) (t : Loader.BT) (hj : t.cls.Json) :
+    JsonScan.events allow t.compact = .ok (JsonScan.evsAt 0 t.strip.cls.toJA) :=
+  Loader.plain_result_is_json allow t hj
+
+/-- the glue to the abstract builder model: `Loader.toEX` reads the loader's node table as a schema of `EX`, and on it
+`EX.build` (the model of `C15_wellformed` / `C15_build_is_render`) emits the byte classes of what the text-level
+builder emits — for every node table, not only those of plain JSON -/
+theorem C15_text_builder_is_model (src : Array UInt8) (nodes : Array Loader.Node) (ts : EX.Types) (f : Nat)
+    (proc : String → Nat) (fuel i : Nat) (out : List UInt8) (h : Loader.exBuild src nodes fuel i = some out) :
+    ∃ n, Loader.toEX src nodes fuel i = some n ∧ EX.build ts f proc n = some (some (out.map JsonScan.classify)) :=
+  Loader.exBuild_glue src nodes ts f proc fuel i out h
+
+/-- non-vacuity: ` {⏎"a\n" :⏎ [1, true,␍⏎⇥-0.50 ] ,⏎⏎ "\u00e9": { }⏎}⏎ ` ↦ `{"a\n":[1,true,-0.50],"\u00e9":{}}` -/
+example : Loader.exampleText SchemaScan.sampleBytes
+    = .ok [123, 34, 97, 92, 110, 34, 58, 91, 49, 44, 116, 114, 117, 101, 44, 45, 48, 46, 53, 48, 93, 44,
+           34, 92, 117, 48, 48, 101, 57, 34, 58, 123, 125, 125] := Loader.sample_roundtrip
+
+/-! ## Self-validation beyond references
+
+`EXK.build` extends the builder model as `example.go` dictates: key shortcuts (`buildObjectKey`), the error for an
+object / array node that carries a types list (K-C15-orcontainer); `EX.build` is its restriction
+(`C15_build_extends`). Scalar positions need no extension: a literal node emits its own token whatever rules it carries
+(`or` rule-sets, `enum`, `const`, `{type: "@t"}`), and `Check` has validated that token against those rules — in the
+theorems this is `litOK l (ex l)` for an ARBITRARY literal-rule semantics `litOK`; an or-shortcut `@a | @b` and a
+nullable reference are `.ref names nul`: the builder follows the first name.
+
+`VK.exDoc strict …` replays the builder and answers `none` as soon as the run leaves the class the theorem covers:
+a cut-off at a REQUIRED property (K-C15-reqcut, K-C15-or), at an array element that is followed by an emitted one
+(K-C15-arraycut; with `strict` at any array element), at a key-shortcut property; a key shortcut whose type is not
+directly a literal (K-C15-keyalias) or whose example key is also a literal key of the object (K-C15-keyclash, found
+while this theorem was being stated; `C15_self_valid_full_false_keyclash`). K-C15-uninhabited lies in the first three classes (nothing is emitted below an
+uninhabited type without a cut-off). -/
+
+theorem C15_build_extends (ts : EX.Types) (fuel : Nat) (proc : String → Nat) (n : EX.N) :
+    EXK.build (EXK.embedTypes ts) fuel proc (EXK.embed n) = EX.build ts fuel proc n := EXK.build_embed ts fuel proc n
+
+/-- **extended self-validation** (`strict = false`): scalars with any rules, or-shortcuts, nullable, key shortcuts on
+directly-literal string types, additionalProperties, any type table; cut-offs tolerated at optional properties and at a
+suffix of an array's elements. The emitted bytes are the compact text of `d`, and `Validate` accepts `d`. -/
+theorem C15_self_valid_ext_partial {L D : Type} (env : VK.Env L) (litOK : L → D → Bool) (keyOK : String → String → Bool)
+    (ex : L → D) (keyStr : D → String) (tok : D → List Cls) (keyTok : String → List Cls)
+    (henv : VK.CheckedEnv env litOK ex) (hkey : VK.KeyLink env litOK keyOK ex keyStr)
+    (hkt : VK.KeyTokLink tok keyTok env ex keyStr)
+    (fuel : Nat) (proc : String → Nat) (s : VK.S L) (hc : VK.checkedS litOK ex s = true)
+    (d : VN.J D) (h : VK.exDoc env ex keyStr false fuel proc s = some (some d)) :
+    EXK.build (VK.tsOfK tok keyTok ex env) fuel proc (VK.ofK tok keyTok ex s) = some (some (VR.jaOfN tok keyTok d).render) ∧
+    VK.validateT env litOK keyOK s d = true :=
+  ⟨VK.build_ofK tok keyTok env ex keyStr false hkt fuel proc s _ h,
+   VK.self_valid_ext env litOK keyOK ex keyStr false henv hkey fuel proc s hc d h⟩
+
+/-- **optional recursion** (`strict = true`): if every child the recursion cut-off omits is the value of an OPTIONAL
+object property, what `Example()` emits is accepted by `Validate` -/
+theorem C15_self_valid_optional_cut {L D : Type} (env : VK.Env L) (litOK : L → D → Bool) (keyOK : String → String → Bool)
+    (ex : L → D) (keyStr : D → String) (tok : D → List Cls) (keyTok : String → List Cls)
+    (henv : VK.CheckedEnv env litOK ex) (hkey : VK.KeyLink env litOK keyOK ex keyStr)
+    (hkt : VK.KeyTokLink tok keyTok env ex keyStr)
+    (fuel : Nat) (proc : String → Nat) (s : VK.S L) (hc : VK.checkedS litOK ex s = true)
+    (d : VN.J D) (h : VK.exDoc env ex keyStr true fuel proc s = some (some d)) :
+    EXK.build (VK.tsOfK tok keyTok ex env) fuel proc (VK.ofK tok keyTok ex s) = some (some (VR.jaOfN tok keyTok d).render) ∧
+    VK.validateT env litOK keyOK s d = true :=
+  ⟨VK.build_ofK tok keyTok env ex keyStr true hkt fuel proc s _ h,
+   VK.self_valid_ext env litOK keyOK ex keyStr true henv hkey fuel proc s hc d h⟩
+
+/-- allOf: `CompileAllOf` (`AO.compileAll`, characterised by `C03_allOf_expand`) expands the schema before `Example()`
+and `Validate` see it; on the expansion (read as a `ValidateK` schema without key shortcuts, `VK.embA`) the extended
+theorem applies -/
+theorem C15_self_valid_allOf {L D : Type} [DecidableEq L] (penv : AO.PEnv L) (root : AO.PS L)
+    (env' : VA.Env L) (s : VA.S L) (_ : AO.compileAll penv root = .ok (env', s))
+    (litOK : L → D → Bool) (keyOK : String → String → Bool)
+    (ex : L → D) (keyStr : D → String) (tok : D → List Cls) (keyTok : String → List Cls)
+    (henv : VK.CheckedEnv (VK.embAEnv env') litOK ex) (hkey : VK.KeyLink (VK.embAEnv env') litOK keyOK ex keyStr)
+    (hkt : VK.KeyTokLink tok keyTok (VK.embAEnv env') ex keyStr)
+    (fuel : Nat) (proc : String → Nat) (hc : VK.checkedS litOK ex (VK.embA s) = true)
+    (d : VN.J D) (h : VK.exDoc (VK.embAEnv env') ex keyStr false fuel proc (VK.embA s) = some (some d)) :
+    EXK.build (VK.tsOfK tok keyTok ex (VK.embAEnv env')) fuel proc (VK.ofK tok keyTok ex (VK.embA s))
+      = some (some (VR.jaOfN tok keyTok d).render) ∧
+    VK.validateT (VK.embAEnv env') litOK keyOK (VK.embA s) d = true :=
+  C15_self_valid_ext_partial (VK.embAEnv env') litOK keyOK ex keyStr tok keyTok henv hkey hkt fuel proc (VK.embA s) hc d h
+
+/-- the statement at full strength: whatever the builder emits for a checked schema, its validator accepts -/
+def C15_self_valid_full : Prop := VK.Witness.SelfValidFull
+
+/-- K-C15-reqcut, on the model as on the library: `@t = {"a": @u // {optional: true}}`, `@u = {"b": @t}`, root `@t`:
+the builder emits `{"a":{"b":{"a":{}}}}`, the validator rejects it -/
+theorem C15_self_valid_full_false : ¬ C15_self_valid_full := VK.Witness.selfValidFull_false_reqcut
+
+/-- K-C15-arraycut: `@t = [@t // {nullable: true}, 1]`, root `[@t]`: `[[[1],1]]` is emitted and rejected -/
+theorem C15_self_valid_full_false_arraycut : ¬ C15_self_valid_full := VK.Witness.selfValidFull_false_arraycut
+
+/-- K-C15-keyclash: `{"a": 1, @K: null}` with `@K = "a"`: `{"a":1,"a":null}` is emitted and rejected -/
+theorem C15_self_valid_full_false_keyclash : ¬ C15_self_valid_full := VK.Witness.selfValidFull_false_keyclash
+
+/-- non-vacuity (optional recursion): `@t = {"a": 1, "t": @t // {optional: true}}`, root `@t`, the cut-off falls on the
+optional property; the hypotheses of `C15_self_valid_optional_cut` hold -/
+example : VK.exDoc VK.Witness.envOpt id id true 8 (fun _ => 0) (.ref ["t"] none)
+      = some (some (.obj [("a", .lit "1"), ("t", .obj [("a", .lit "1")])])) ∧
+    VK.CheckedEnv VK.Witness.envOpt VK.Witness.litOK id :=
+  ⟨VK.Witness.optcut_inside, VK.Witness.envOpt_checked⟩
+
+/-- non-vacuity (key shortcut + omitted array suffix): `{"b": 1, @K: [@t]}`, `@K = "a"`, `@t = [@t]` -/
+example : VK.exDoc VK.Witness.envMix id id false 8 (fun _ => 0) VK.Witness.schemaMix
+      = some (some (.obj [("b", .lit "1"), ("a", .arr [.arr [.arr []]])])) ∧
+    VK.CheckedEnv VK.Witness.envMix VK.Witness.litOK id ∧
+    VK.KeyLink VK.Witness.envMix VK.Witness.litOK (fun _ _ => true) id id :=
+  ⟨VK.Witness.mix_inside, VK.Witness.envMix_checked, VK.Witness.keyLink _⟩
+
+/-- and the replay puts the K-C15-reqcut witness outside the class -/
+example : VK.exDoc VK.Witness.envReq id id false 8 (fun _ => 0) (.ref ["t"] none) = none :=
+  VK.Witness.reqcut_outside false
 
 end Props.C15
